@@ -23,7 +23,7 @@ catches unseen**: 17 of 40, then 10 of 20 at first run (batch 3 ran against the 
 batches 1 and 2; its agents had to avoid 5 earlier sites per property, so its changes sit in less central code:
 `clip` with Frame bounds, key functions returning deeper hierarchies, `StoreFilter`, `relabel_level_add`, ...).
 Of the 10 batch-3 misses, 5 are now refuted by contracts / site obligations (G3, G14, `Frame.equals`,
-`sort_index_for_order[key->index]`) and 5 by wider stand-in scopes. For batch 2: Every one of the 23 missed changes led to a strengthening (named in the
+`sort_index_for_order[key->index]`) and 5 by wider stand-in scopes. In batch 2 every one of the 23 missed changes led to a strengthening (named in the
 "first run" column): new or completed contracts (`LocMap.bound_offset_slice`, `free_conditions` in the offset
 contract, `IndexHierarchy.from_index_items`, and — written after the stand-ins had been widened —
 `Index.equals`, `_ufunc_logical_skipna`, `SeriesAssign.__call__`, `normalize_container`, which now refute
@@ -37,13 +37,16 @@ The pattern of the misses is the useful
 finding: nearly all need an input *class* the stand-in did not enumerate (mixed dtype of equal width, shared
 index objects, subclass members, auto-generated indices), i.e. exactly what a contract over all inputs covers
 and an enumeration does not — where a contract or site obligation existed for the changed function
-(@DG2@ of the 40 batch-2 changes and @DG1@ of the 60 batch-1 changes are refuted by a D or G obligation today)
+(@DG1@ of the 60 batch-1, @DG2@ of the 40 batch-2 and @DG3@ of the 20 batch-3 changes are refuted by a D or G obligation today)
 the change was caught without knowing the class in advance.
 
 '''
 rows = [l for l in table.splitlines() if l.startswith('| C')]
-dg = lambda b: sum(1 for l in rows if (l.split('|')[1].strip().split('/')[1] in ('4', '5')) == (b == 2) and ('**D**' in l or '**G**' in l))
-INTRO = INTRO.replace('@DG2@', str(dg(2))).replace('@DG1@', str(dg(1)))
+def _b(l):
+    k = l.split('|')[1].strip().split('/')[1]
+    return 3 if k == '6' else 2 if k in ('4', '5') else 1
+dg = lambda b: sum(1 for l in rows if _b(l) == b and ('**D**' in l or '**G**' in l))
+INTRO = INTRO.replace('@DG2@', str(dg(2))).replace('@DG1@', str(dg(1))).replace('@DG3@', str(dg(3)))
 p = os.path.join(HERE, 'DESIGN.md')
 s = open(p).read()
 a = s.index('### 8.1 Seeded changes')
